@@ -27,7 +27,7 @@ PID = 'C06'
 RTOL = 1e-3             # property: within 1e-3*(1+F*)
 REF_RTOL = 1e-8         # certified accuracy of the reference
 CASES_PER_TASK = 1
-NTASKS = {'quick': 192, 'thorough': 3840}
+NTASKS = {'quick': 144, 'thorough': 2880}
 CPU_LIMIT_SCALING = 7.0   # s of CPU per known-limitation (scaling) case: Dykstra runs to its iteration cap there (up to 45 s)
 CPU_LIMIT = 40.0          # s of CPU for an ordinary case (largest seen: 7 s); beyond it the case is dropped and counted
 SCALING_SHARE = 0.06    # share of bounded cases run with scaling_within_bounds=True (known limitation)
